@@ -20,12 +20,13 @@ LEVEL = "exploration"
 RULE = (
     "layer 1: every subset of the branch-name universe x every version of the version list through versions.best_match; "
     "layer 2: every (branch subset, tag subset, version) of a smaller universe on a real local git repository through "
-    "RallyRepository.update. A case is non-trivial when at least one versioned branch of the version's major is present; "
+    "RallyRepository.update; layer 3: every non-empty subset of remote branch names (incl. namespaced names such as "
+    "users/jdoe/8.3) x versions on an origin + clone pair. A case is non-trivial when at least one versioned branch of the version's major is present; "
     "distinct = distinct (branch set, version)."
 )
 ASSUMPTIONS = [
     "branch names follow MAJOR[.MINOR[.PATCH[-SUFFIX]]] plus unrelated names; the universe is listed in coverage.universe",
-    "remote repositories (fetch/rebase) are not exercised, only local branches and tags",
+    "remote repositories are a local origin + clone (fetch/checkout/rebase of an unchanged branch); no diverging histories",
     "reference = the six documented steps of docs/track.rst; where the statement is silent (version newer than every "
     "versioned branch but of the same major as the newest; 'master' chosen but no master branch) either answer is accepted",
 ]
@@ -258,6 +259,109 @@ def check_git(sb, branches, tags, version, res):
         )
 
 
+# ---------------------------------------------------------------- layer 3: repository with a remote (origin + clone)
+
+REMOTE_BRANCHES_Q = ["master", "8", "8.0", "users/jdoe/8.3", "backport/9"]
+REMOTE_BRANCHES_T = REMOTE_BRANCHES_Q + ["7", "feature/8.3.0"]
+REMOTE_VERSIONS_Q = ["8.3.0", "9.1.0", "8.0.1"]
+REMOTE_VERSIONS_T = REMOTE_VERSIONS_Q + ["7.17.0", None]
+
+
+class RemoteSandbox(GitSandbox):
+    """self.repo is the origin; self.clone is what Rally manages"""
+
+    def __init__(self):
+        super().__init__()
+        self.croot = os.path.join(self.root, "managed")
+        os.makedirs(self.croot)
+        self.clone = os.path.join(self.croot, "default")
+        # origin needs at least one branch to clone from
+        with open(os.path.join(self.repo, ".git", "refs/heads/seed"), "w") as f:
+            f.write(self.sha_a + "\n")
+        subprocess.run(["git", "clone", "-q", self.repo, self.clone], check=True, capture_output=True)
+        _git(self.clone, "config", "user.email", "v@v")
+        _git(self.clone, "config", "user.name", "v")
+        _git(self.clone, "config", "advice.detachedHead", "false")
+
+    def reset_remote(self, branches):
+        self.reset(branches, [])
+        g = os.path.join(self.clone, ".git")
+        _git(self.clone, "checkout", "-q", "-f", "--detach", self.sha_a)
+        for d in ("refs/heads", "refs/remotes/origin", "refs/tags"):
+            shutil.rmtree(os.path.join(g, d), ignore_errors=True)
+        os.makedirs(os.path.join(g, "refs/heads"), exist_ok=True)
+        pk = os.path.join(g, "packed-refs")
+        if os.path.exists(pk):
+            os.remove(pk)
+
+    def reset(self, branches, tags):
+        g = os.path.join(self.repo, ".git")
+        shutil.rmtree(os.path.join(g, "refs/heads"), ignore_errors=True)
+        os.makedirs(os.path.join(g, "refs/heads"))
+        pk = os.path.join(g, "packed-refs")
+        if os.path.exists(pk):
+            os.remove(pk)
+        for b in branches:
+            fn = os.path.join(g, "refs/heads", b)
+            os.makedirs(os.path.dirname(fn), exist_ok=True)
+            with open(fn, "w") as f:
+                f.write(self.sha_a + "\n")
+
+
+def check_remote(sb, branches, version, res):
+    from esrally import exceptions
+    from esrally.utils import repo
+
+    sb.reset_remote(branches)
+    err = None
+    try:
+        r = repo.RallyRepository(remote_url=sb.repo, root_dir=sb.croot, repo_name="default", resource_name="tracks", offline=False)
+        r.update(version)
+    except exceptions.RallyError as e:
+        err = type(e).__name__
+    except Exception as e:  # noqa
+        err = "unexpected:" + type(e).__name__
+    cur = _git(sb.clone, "rev-parse", "--abbrev-ref", "HEAD")
+    accept, step = reference(branches, version)
+    exp = [("branch", a) if (a is not None and a in branches) else ("error", None) for a in accept]
+    got = ("error", None) if err else (("branch", cur) if cur != "HEAD" else ("unchanged", None))
+    ok = got in exp and not (err or "").startswith("unexpected")
+    res.case(
+        case_repr={"remote_branches": list(branches), "version": version, "observed": list(got), "error": err} if res.evaluations % 37 == 5 else None,
+        nontrivial_key=("remote", tuple(branches), version) if branches else None,
+        outcome_key=("remote", got[0], step),
+    )
+    res.traces += 1
+    if not ok:
+        res.violation(
+            f"git-remote:{step}->{got[0]}",
+            f"remote branches={list(branches)} version={version!r}: observed {got} error={err}, expected one of {exp}",
+            {"layer": 3, "branches": list(branches), "version": version},
+        )
+
+
+def _layer3_shard(cases):
+    res = Result()
+    sb = RemoteSandbox()
+    try:
+        for branches, version in cases:
+            check_remote(sb, branches, version, res)
+    finally:
+        sb.close()
+    return res
+
+
+def _remote_cases(tier):
+    names = REMOTE_BRANCHES_Q if tier == "quick" else REMOTE_BRANCHES_T
+    vers = REMOTE_VERSIONS_Q if tier == "quick" else REMOTE_VERSIONS_T
+    out = []
+    for mask in range(1, 1 << len(names)):
+        br = [names[i] for i in range(len(names)) if mask >> i & 1]
+        for v in vers:
+            out.append((br, v))
+    return out
+
+
 def _layer2_shard(cases):
     res = Result()
     sb = GitSandbox()
@@ -297,6 +401,9 @@ def run(tier, seed):
     r2 = par.pmap(_layer2_shard, par.chunks(gc, par.NPROC), seed=seed)
     res.extra["layer2_git_cases"] = r2.evaluations
     res.merge(r2)
+    r3 = par.pmap(_layer3_shard, par.chunks(_remote_cases(tier), par.NPROC), seed=seed)
+    res.extra["layer3_remote_git_cases"] = r3.evaluations
+    res.merge(r3)
     res.extra["universe"] = universe
     res.extra["versions"] = [str(v) for v in vers]
     res.states = res.evaluations
@@ -311,6 +418,12 @@ def replay(data):
     res = Result()
     if data["layer"] == 1:
         check_best_match(data["branches"], data["version"], res)
+    elif data["layer"] == 3:
+        sb = RemoteSandbox()
+        try:
+            check_remote(sb, data["branches"], data["version"], res)
+        finally:
+            sb.close()
     else:
         sb = GitSandbox()
         try:
